@@ -138,6 +138,42 @@ func xtermMods(e *Engine, n int) int64 {
 	return m
 }
 
+// c02KeyTables: the part of the key-table evaluation that the input driver's partition independence rests on (C02):
+// the REAL prepareKeys run on every description yields a table in which no sequence is a proper prefix of another
+// (otherwise the same bytes decode differently depending on whether the longer sequence arrived in one read) and
+// no sequence is empty.
+func c02KeyTables(run *PropRun) {
+	e := run.Eng
+	db := LoadTermDB(e, true)
+	n := 0
+	for _, te := range db.Entries {
+		tab, _, _ := buildKeyTable(db, te)
+		var seqs []string
+		for s := range tab {
+			seqs = append(seqs, s)
+		}
+		sort.Strings(seqs)
+		bad := ""
+		for i, a := range seqs {
+			for j, b := range seqs {
+				if i != j && len(a) < len(b) && strings.HasPrefix(b, a) {
+					bad = fmt.Sprintf("%q is a proper prefix of %q", a, b)
+				}
+			}
+		}
+		g := run.AddObligation(fmt.Sprintf("keytable[%s]/prefix-free", te.Name), "table", BoolT(bad == ""), "no key sequence of the table built by prepareKeys is a proper prefix of another "+bad)
+		g.ReplayGo = replayKeyTable(te.Name, `for a := range s.keycodes { for b := range s.keycodes { if a != b && len(a) < len(b) && strings.HasPrefix(b, a) { fail("%q is a proper prefix of %q", a, b); return } } }`)
+		_, hasEmpty := tab[""]
+		g2 := run.AddObligation(fmt.Sprintf("keytable[%s]/nonempty-keys", te.Name), "table", BoolT(!hasEmpty), "the table built by prepareKeys has no empty key sequence (precondition of parseFunctionKey: a match consumes at least one byte)")
+		g2.ReplayGo = replayKeyTable(te.Name, `for a, k := range s.keycodes { if a == "" || k == nil { fail("empty sequence or nil entry in the key table"); return } }`)
+		n++
+	}
+	run.Extra["descriptions_whose_key_table_was_evaluated"] = n
+	for k := range db.Ev.C.Assumed {
+		run.Assumed[k] = true
+	}
+}
+
 func c03Tables(run *PropRun) {
 	e := run.Eng
 	db := LoadTermDB(e, true)
